@@ -1,3 +1,52 @@
+(* C11 Command exclusivity and init/finalize pairing. Statements only. *)
 From Coq Require Import ZArith List Bool Arith.
 From OP Require Import lib.Obs model.Eng model.EngRun model.C11 proofs.Eng_prims proofs.C11_proofs.
-Theorem C11_tmp : True. Proof. exact I. Qed.
+Import ListNotations.
+Open Scope Z_scope.
+
+(* The full property is the STRICT discipline (mon11 true) on the init / exec / finalize calls: one live instance per
+   command, exec only between init and finalize, no instance initialised or finalized twice, the older of two
+   conflicting (same or overlapping) commands never executes after the newer was initialised, nothing live when the run
+   stops. It is what the monitor checks on the real engine.
+
+   PROVED of the model, for EVERY state reachable by ANY operation sequence (faults, failing commands, Stop / Restart at
+   any tick included): the trace obeys the life-cycle discipline
+     - a command is initialised only when no instance of the same command is live (never two instances of one command),
+     - every exec call is on an instance that has been initialised and not yet finalized,
+   and the live set the discipline tracks IS the set of initialised instances the engine holds (uod.command_instances):
+   an instance is live exactly from its init call to its finalize call, and finalize disposes it. *)
+Theorem C11_instance_life_cycle_partial : forall safe overlaps n outs0 ops,
+  let e := fold_left (fun e o => fst (step safe overlaps e o)) ops (boot safe (init n outs0)) in
+  exists s, mon11 false overlaps st11_0 (trace e) = Some s /\
+    forall k id, In (k, id) (live s) <-> exists c, find_u e k = Some c /\ c_id c = id /\ c_init c = true.
+Proof. intros safe overlaps n outs0 ops. exact (J_reachable safe overlaps n outs0 ops). Qed.
+Print Assumptions C11_instance_life_cycle_partial.
+
+(* "requesting such a command first cancels the older one": _cancel_command on a UOD request leaves the instance that
+   request started either disposed or marked cancelled (exec_uod finalizes a cancelled instance instead of executing
+   it), and leaves an instance that belongs to another request alone *)
+Theorem C11_cancel_marks_own_instance : forall e m r k, r_name r = CU k ->
+  match find_u (fst (cancel_request e m r)) k with
+  | None => True
+  | Some c => c_id c = r_id r -> c_cancelled c = true
+  end.
+Proof. exact cancel_request_effect. Qed.
+Print Assumptions C11_cancel_marks_own_instance.
+
+(* ... and a cancelled request that had not started an instance yet is done: it never starts one (the /repo fix) *)
+Theorem C11_cancelled_unstarted_request_is_done : forall e m r,
+  existsb (fun x => Nat.eqb (r_id x) (r_id r)) (m_exe e m) = true ->
+  memn (r_id r) (m_done (fst (cancel_unstarted e m r)) (snd (cancel_unstarted e m r))) = true.
+Proof. exact cancel_unstarted_done. Qed.
+Print Assumptions C11_cancelled_unstarted_request_is_done.
+
+(* the strict monitor rejects what the engine did before the fix (three requests for one command within two ticks: the
+   newest two were dropped and the OLDEST was initialised again), and a command that outlives its run *)
+Example C11_monitor_rejects :
+  mon11 true [[1%nat; 2%nat]] st11_0
+    [EUInit 1 1; EUExec 1 1 0; EUFinal 1 1; EUInit 1 3; EUExec 1 3 0; EUFinal 1 3; EUInit 1 1; EUExec 1 1 0] = None
+  /\ mon11 true [[1%nat; 2%nat]] st11_0 [EStarted 0; EUInit 2 4; EUExec 2 4 0; EStoppedRun] = None
+  /\ mon11 true [[1%nat; 2%nat]] st11_0 [EUInit 1 1; EUExec 1 1 0; EUInit 2 2; EUExec 2 2 0; EUExec 1 1 1] = None
+  /\ exists s, mon11 true [[1%nat; 2%nat]] st11_0
+       [EUInit 1 1; EUExec 1 1 0; EUFinal 1 1; EUInit 2 2; EUExec 2 2 0; EUFinal 2 2; EStoppedRun] = Some s.
+Proof. repeat split; try (vm_compute; reflexivity). eexists. vm_compute. reflexivity. Qed.
